@@ -24,6 +24,7 @@ LEVEL = "proof"
 PRELUDE = '''from guppylang import guppy
 from guppylang.std.quantum import qubit
 from guppylang.std.builtins import array, barrier
+from collections.abc import Callable
 dagger = object(); control = object(); power = object()
 '''
 KW = {1: "control", 2: "dagger", 4: "power"}
@@ -142,12 +143,50 @@ def mod_flags(m):
     return f
 
 
+# calls through a LOCAL FUNCTION VALUE.  loc -> (lines before the (optional) with block, call lines, features,
+# number of candidates).  {A}/{B} = the candidate callees q<A>, q<B> (same signature, flag sets A, B).
+LOCAL = {
+    "local_once": (["f = q{A}"], ["f(r)"], {"assign"}, 1),
+    "local_if": (["if n > 0:", "    f = q{A}", "else:", "    f = q{B}"], ["f(r)"], {"assign"}, 2),
+    "local_if_default": (["f = q{A}", "if n > 0:", "    f = q{B}"], ["f(r)"], {"assign"}, 2),
+    "local_ifexp_call": ([], ["(q{A} if n > 0 else q{B})(r)"], set(), 2),
+    "local_ifexp_assign": (["f = q{A} if n > 0 else q{B}"], ["f(r)"], {"assign"}, 2),
+    "local_loop": (["f = q{A}", "i = 0", "while i < n:", "    f = q{B}", "    i += 1"], ["f(r)"], {"assign", "loop"}, 2),
+    "local_param": ([], ["g(r)"], set(), 0),      # a Callable parameter: its type carries no flags
+    "local_tuple": (["fs = (q{A}, q{B})"], ["fs[0](r)", "fs[1](r)"], {"assign"}, 2),
+}
+
+
+def local_cases():
+    out = []
+    for loc, (_, _, _, ncand) in LOCAL.items():
+        pairs = [(a, 0) for a in (0, 1, 5, 7)] if ncand < 2 else [(a, b) for a in (0, 1, 5, 7) for b in (0, 1, 5, 7)]
+        if ncand == 0:
+            pairs = [(0, 0)]
+        for A, B in pairs:
+            for F0, M in ((1, None), (5, None), (4, None), (7, None), (0, ("control",)), (4, ("control",)), (0, ("control", "power")), (0, None)):
+                out.append({"F0": F0, "M": M, "cf": A, "pos": loc, "loc": True, "B": B})
+    return out
+
+
 def case_name(c):
+    if c.get("loc"):
+        return "l_%d_%s_%d_%d_%s" % (c["F0"], "none" if c["M"] is None else "".join(x[0] for x in c["M"]), c["cf"], c["B"], c["pos"])
     return "f_%d_%s_%d_%s%s" % (c["F0"], "none" if c["M"] is None else "".join(x[0] for x in c["M"]), c["cf"], c["pos"],
                                 "" if not c.get("sh") else "_s%d" % c["sh"])
 
 
 def case_src(c):
+    if c.get("loc"):
+        pre, call, _, _ = LOCAL[c["pos"]]
+        pre = [l.format(A=c["cf"], B=c["B"]) for l in pre]
+        call = [l.format(A=c["cf"], B=c["B"]) for l in call]
+        if c["M"] is not None:
+            call = ["with " + ", ".join(MOD_SRC[m] for m in c["M"]) + ":"] + ["    " + l for l in call]
+        extra = ", g: Callable[[qubit], None]" if c["pos"] == "local_param" else ""
+        return (f"@guppy{kwargs(c['F0'])}\n"
+                f"def {case_name(c)}(q: qubit, r: qubit, c: qubit, xs: array[int, 4], n: int{extra}) -> None:\n"
+                + "\n".join("    " + l for l in pre + call) + "\n")
     lines, _ = POS[c["pos"]]
     sh = c.get("sh", 0)
 
@@ -166,6 +205,15 @@ def case_src(c):
 
 def expected(c):
     """The property's rule, from the program description alone."""
+    if c.get("loc"):
+        _, _, feats, ncand = LOCAL[c["pos"]]
+        cands = [0] if ncand == 0 else [c["cf"], c["B"]][:ncand]
+        ctx = c["F0"] | mod_flags(c["M"])
+        # the qubit may reach ANY candidate: accepted only if every candidate has all required flags
+        reasons = ["call"] if any(ctx & ~cf & 7 for cf in cands) else []
+        if c["F0"] & 2:      # assignments / loops sit at function level (outside the with block)
+            reasons += [k for k in ("loop", "assign") if k in feats]
+        return reasons
     feats = POS[c["pos"]][1]
     inner = mod_flags(c["M"])
     ctx = c["F0"] | inner
@@ -203,6 +251,20 @@ def shaped_cases():
 
 
 def failure_class(c, exp, verdict):
+    if c.get("loc"):
+        return _failure_class_local(c, exp, verdict)
+    return _failure_class(c, exp, verdict)
+
+
+def _failure_class_local(c, exp, verdict):
+    where = "with-body" if c["M"] is not None else "function-body"
+    if verdict == "accept":
+        same = "same-flags" if c["cf"] == c["B"] or LOCAL[c["pos"]][3] < 2 else "candidates-differ-in-flags"
+        return f"accepted-call:{c['pos']}:{where}:{same}" if "call" in exp else f"accepted-under-dagger:{c['pos']}:{where}:{'+'.join(exp)}"
+    return f"rejected-valid:{c['pos']}:{where}:{verdict}"
+
+
+def _failure_class(c, exp, verdict):
     """Identity of a specification disagreement: position + which part of the context the
     implementation ignored (for wrongly accepted calls) or the wrong rejection kind."""
     inner = mod_flags(c["M"])
@@ -329,9 +391,13 @@ def run(ctx):
         for sh in range(1, len(SHAPES)):     # every argument shape, 12 (position, context) combinations each
             pool = [c for c in shaped if c["sh"] == sh and c not in corpus]
             picked += r.sample(pool, min(len(pool), 12))
+        loc = local_cases()
+        for name in LOCAL:                   # calls through local function values: 16 per kind
+            pool = [c for c in loc if c["pos"] == name]
+            picked += r.sample(pool, min(len(pool), 16))
         cases = corpus + picked
     else:
-        cases = corpus + [c for c in cases if c not in corpus] + [c for c in shaped_cases() if c not in corpus]
+        cases = corpus + [c for c in cases if c not in corpus] + [c for c in shaped_cases() if c not in corpus] + local_cases()
     # ---- implementation side, in chunks (one module per chunk)
     results, meta = {}, {}
     chunks = [cases[i:i + 400] for i in range(0, len(cases), 400)]
